@@ -327,6 +327,7 @@ def run(ctx):
     import tagstage
     tstats, tdis = tagstage.stage(ctx, ctx.tier == "thorough") if st["driver_ok"] else ({"ran": False}, [])
     ctx.log("union shape M0: %s disagreements=%d" % (tstats, len(tdis)))
+    st["union_shape_M0"] = tstats
     if tdis:
         st["broken"].append("correspondence M0 (convert_one_of / enums.rs tagging detection vs Model/Tagging.lean) disagrees on %d of %d requests, first: %s"
                             % (len(tdis), tstats.get("requests", 0), json.dumps(tdis[0])[:600]))
@@ -506,7 +507,7 @@ def report(ctx, P, findings, st, R):
     json.dump({"fails": R["fails"][:50], "wire_false": R["wire"]["false_detail"], "origin_m3": R["origin_m3"]["dis"][:50], "gen_m3": R["gen_m3"].get("dis", []),
                "route_disagree": R["route_disagree"][:50], "generator_bugs": R["generator_bugs"][:10]},
               open(os.path.join(vlib.CACHE, "c04_last_details.json"), "w"), indent=1)
-    cov = {"union_shape_M0": tstats, "obligations": st["obligations"], "discharged": st["discharged"],
+    cov = {"union_shape_M0": st.get("union_shape_M0"), "obligations": st["obligations"], "discharged": st["discharged"],
            "checker_cmd": "cd /verif/lean && lake build TypifyModel.Proofs.C04 && lake env lean TypifyModel/Audit/C04.lean",
            "trusted_base": vlib.TRUSTED_BASE + ["serde_derive / serde_json modelled (Model/Serde*.lean), tied by M3 to BOTH compiled crates (hand-derived origin types and generated types)",
                                                 "schemars 0.8.22 is not modelled: its real output is used", "rustc",
